@@ -2,6 +2,7 @@
   C11 — Header accessors and typed getters decode the specified fields.
   `C11Parts`: model-level theorems; `Layout`: the source-derived layouts / IDs / accessor fields of the header-tag structs.
 -/
+import Mb2.Props.FnsTblHdr
 import Mb2.Props.FnsGetters
 import Mb2.Props.FnsDstHdr
 import Mb2.Props.C11Parts
